@@ -39,7 +39,10 @@ def _check_dejitter(case):
     lo = case[5] if len(case) > 5 else 0  # the whole scene moved far from zero (sums stay exact); or an explicit (lo, hi) span
     lo, hi = lo if isinstance(lo, tuple) else (lo, lo + 2)
     tier = (IT if kind == "I" else PT)("t", list(entries), lo, hi)
-    rt = _ref_tier(rkind, ref, lo, hi)
+    if rkind == "twin":     # the reference is another version of the SAME tier (same name, span, labels): its times differ from the subject's by rounding noise
+        rt = (IT if kind == "I" else PT)("t", list(ref), lo, hi)
+    else:
+        rt = _ref_tier(rkind, ref, lo, hi)
     times = sorted(set(rt.timestamps))
     before = canon(rt)
     st, r, _ = call(tier.dejitter, rt, md)
@@ -247,6 +250,18 @@ def parts(tier):
             long_e = tuple((i + 0.125, i + 0.875, "w%d" % i) for i in range(nref - 1))
             yield ("I", long_e, "P", ref, 0.25, span)
             yield ("P", tuple((i + 0.125, "p%d" % i) for i in range(nref - 1)), "P", ref, 0.125, span)
+        # the reference is a re-computed version of the subject itself: same name, span and labels, every time equal or one rounding step away
+        # (0.1+0.2 vs 0.3, 0.1+0.7 vs 0.8) - "approximately equal" tiers are not equal tiers, the subject is still snapped to the reference
+        U = sorted(D.ULP)
+        twins = [(((U[2], U[4], "a"),), ((U[1], U[3], "a"),)), (((U[1], U[3], "a"),), ((U[2], U[4], "a"),)),
+                 (((U[0], U[2], "a"), (U[3], U[5], "b")), ((U[0], U[1], "a"), (U[4], U[5], "b"))),
+                 (((U[0], U[1], "a"), (U[1], U[3], "b")), ((U[0], U[2], "a"), (U[2], U[4], "b")))]
+        for e, tw in twins:
+            for md in (0.001, 0.25):
+                yield ("I", e, "twin", tw, md, (U[0], U[5]))
+        for e, tw in (((((U[2], "x"), (U[4], "y"))), ((U[1], "x"), (U[3], "y"))), ((((U[1], "x"), (U[3], "y"))), ((U[2], "x"), (U[4], "y")))):
+            for md in (0.001, 0.25):
+                yield ("P", e, "twin", tw, md, (U[0], U[5]))
         # the same scene at 2**40 s: maxDifference is an absolute duration, whatever the magnitude of the times
         B0 = D.BIG0
         for s in sets[::3]:
